@@ -72,6 +72,10 @@ def c01_cases(tier, seed):
     cs += gens.g_cst(seed, 400 if q else 4000, flags="", renderings=2, hoist=True)
     cs += gens.g_nonchar() + gens.g_long(flags="")
     cs += gens.g_entity_value_prefixes() + gens.g_big_charrefs()
+    w14 = gens.g_dup_attr_wide() + gens.g_utf8_bytes() + gens.g_cr_in_misc() + gens.g_prefix_out_of_scope() + gens.g_entity_value_chars() + \
+        gens.g_cdata_tricky_nonchar() + gens.g_entity_names() + gens.g_pieces_attr_after(1) + gens.g_ns_entity_sibling() + \
+        gens.g_ent_many_decls() + gens.g_ent_fanout_sep([2, 8], [2, 6])
+    cs += [Case(c.data, "", True, meta={"gen": (c.meta or {}).get("gen", "?")}) for c in w14]
     # every proper prefix of documents that exercise every kind of DTD declaration, with quoted literals of both styles
     for zoo in DTD_ZOO:
         b_ = zoo.encode()
@@ -104,6 +108,8 @@ def c03_cases(tier, seed):
     q = tier == "quick"
     cs = gens.g_cst(seed, 1500 if q else 8000, flags="nc", renderings=4 if q else 8, hoist=False)
     cs += gens.g_fixtures(flags="nc")
+    cs += [Case(c.data, "nc", True, meta=c.meta) for c in gens.g_cr_in_misc()]
+    cs += gens.g_ns_entity_sibling(flags="nc")
     # the XML declaration with every kind of whitespace after '<?xml' (D12)
     for ws in (" ", "\t", "\n", "\r", "\r\n", " \t"):
         cs.append(Case("<?xml" + ws + "version='1.0'?><a/>", "nc", True,
@@ -133,6 +139,7 @@ def c04_cases(tier, seed):
         more = gens.g_pieces_text(4, positions=(0,))
         cs += rnd.sample(more, min(len(more), 60000))
     cs += gens.g_cst(seed, 800 if q else 6000, flags="nc", renderings=2, hoist=False)
+    cs += [c for c in gens.g_entity_names() + gens.g_entity_value_chars() if "expect_text" in c.meta]
     cs += gens.g_long(flags="nc")
     # a name declared twice: the first declaration binds, in text as in attribute values and through another entity
     cs.append(Case("<!DOCTYPE r [<!ENTITY x 'ONE'><!ENTITY x 'TWO'><!ENTITY y '[&x;]'>]><r a='&x;'>&x;&y;<c b='&y;'/></r>", "nc", True,
@@ -161,6 +168,9 @@ def c05_cases(tier, seed):
     q = tier == "quick"
     cs = gens.g_pieces_attr(3 if q else 4)
     cs += gens.g_pieces_attr_in_entity(2 if q else 3)
+    cs += gens.g_pieces_attr_after(1 if q else 2)
+    cs += [c for c in gens.g_entity_names() + gens.g_entity_value_chars() if "expect_attr" in c.meta]
+    cs += gens.g_dup_attr_wide(flags="c")
     cs += gens.g_cst(seed, 800 if q else 6000, flags="nc", renderings=2, hoist=False)
     # attribute lists interleaved with declarations, 0..40 attributes
     rnd = random.Random(seed + 1)
@@ -197,6 +207,7 @@ def c06_cases(tier, seed):
     cs += gens.g_cst(seed, 600 if q else 6000, flags="nc", renderings=1)
     cs += gens.g_cst(seed + 5, 300 if q else 3000, flags="nc", renderings=2, hoist=True)
     cs += gens.g_ns_attr(flags="nc", sample=6000 if q else None, seed=seed)
+    cs += gens.g_prefix_out_of_scope(flags="c") + gens.g_ns_entity_sibling(flags="c")
     # URIs supplied through references / entities
     d = "<!DOCTYPE r [<!ENTITY u 'urn:x'>]><r xmlns:p='&u;' xmlns='&#117;rn:y'><p:a/><b/></r>"
     cs.append(Case(d, "c", True, meta={"gen": "ns-uri-entity", "expect_content": [
@@ -249,6 +260,18 @@ def c06_extra(tier, seed, harness_rel, harness_dbg):
                     fails.append({"why": "%d distinct namespaces (%s) exceed the documented 2^16 limit but the document is accepted (mis-resolution)" % (k, style), "family": "namespaces-%s-%d" % (style, k)})
                 elif not any("NamespacesLimitReached" in l for l in out[:3]):
                     fails.append({"why": "%d distinct namespaces (%s): expected NamespacesLimitReached, got %s" % (k, style, " | ".join(out[:2])), "family": "namespaces-%s-%d" % (style, k)})
+    # ONE namespace declared on 2^16 + 1 elements: the limit counts distinct namespaces, not declarations
+    for c in gens.g_same_ns_many(counts=(65537,) if tier == "quick" else (65536, 65537, 70000)):
+        path = os.path.join(work, "scale.cases")
+        rxlib.write_cases([Case(c.data, "", True)], path)
+        t1 = time.time()
+        p = subprocess.run([harness_rel, "dump", path], stdout=subprocess.PIPE, stderr=subprocess.DEVNULL, env=rxlib.ENV)
+        out = p.stdout.decode().splitlines()
+        fam = "same-namespace-%s-%d" % (c.meta["prefix"], c.meta["k"])
+        info.append({"family": fam, "result": out[0] if out else "", "seconds": round(time.time() - t1, 1)})
+        if not out or " R ok" not in out[0]:
+            fails.append({"why": "one namespace (prefix %s) declared on %d elements is rejected: %s" % (c.meta["prefix"], c.meta["k"], " | ".join(out[:2])),
+                          "family": fam, "input_note": "<r>" + "<%s:i xmlns:%s='http://www.w3.org/2001/XMLSchema-instance' %s:a='1'/>" % ((c.meta["prefix"],) * 3) + " x %d</r>" % c.meta["k"]})
     return fails, info
 
 
@@ -262,6 +285,9 @@ def c07_cases(tier, seed):
     cs.append(Case("<!DOCTYPE r [<!ENTITY % x 'PE'><!ENTITY x 'GE'>]><r>&x;</r>", "nc", True,
                    meta={"gen": "pe-not-ge", "expect_content": ["Q 1 - x72", "X 2 " + spec.hexs("GE")]}))
     cs += gens.g_ent_nested_elems(flags="nc")
+    cs += gens.g_ns_entity_sibling(flags="nc")
+    cs += [Case(c.data, "nc", True, meta={"gen": c.meta["gen"], "wellformed": "character / predefined references are not entity expansions"})
+           for c in gens.g_ent_charrefs_free(flags="c") if c.meta.get("k") in (255, 256, 300) and c.meta.get("ref") in ("&amp;", "&#x41;")]
     # the equivalence also holds under a nodes_limit that the inline document just meets: text arriving in several
     # pieces (literal + entity value + CDATA ...) is ONE node, so the hoisted document needs no larger limit
     for decls, body, n, content in (
@@ -451,6 +477,7 @@ def c08_cases(tier, seed):
     cs += gens.g_meta(3 if q else 4, embed=True)
     cs += gens.g_tokens(3 if q else 4, flags="")
     cs += gens.g_nonchar()
+    cs += [Case(c.data, "", True, meta=c.meta) for c in gens.g_dup_attr_wide() + gens.g_prefix_out_of_scope()]
     cs += char_cases(tier, seed)
     return cs
 
@@ -538,6 +565,8 @@ def c09_cases(tier, seed):
     cs += gens.g_ent_fanout_attr_leaf([1, 2, 3, 4, 6, 10, 15, 16], [1, 2, 3, 4], flags="c")
     cs += gens.g_ent_chains(14, flags="c")
     cs += gens.g_ent_empty(flags="c") + gens.g_ent_charrefs_free(flags="c")
+    cs += gens.g_ent_many_decls(flags="c", dists=(256, 512) if q else (256, 512, 65536))
+    cs += gens.g_ent_fanout_sep([2, 3, 4, 8, 15], [1, 2, 3, 6] if q else [1, 2, 3, 4, 6, 8], flags="c")
     cs += gens.g_ent_toplevel(1000 if q else 100000, flags="c")
     cs += gens.g_ent_random(seed, 1500 if q else 15000, flags="c")
     return cs
@@ -646,6 +675,7 @@ def c14_cases(tier, seed):
     cs += gens.g_ent_cycles(6, flags="t") + gens.g_ent_random(seed, 400 if q else 4000, flags="t")
     cs += [Case("<e>é</e>", "t", True), Case("a\r\nb\n\n中文\n", "t", True), Case("<r>\n  <a>é\n</b>", "t", True)]
     cs += [Case(c.data, "t", True, meta=c.meta) for c in gens.g_nonchar()]
+    cs += gens.g_cdata_tricky_nonchar(flags="t")
     # text_pos_at inside characters whose continuation bytes are 0x80 / 0xBF
     cs += [Case("<e>р–À…😀\u07ff\uffff</e>".replace("\uffff", ""), "t", True, meta={"gen": "continuation-bytes"})]
     # something the internal subset cannot contain, behind various prefixes: the error is reported AT that construct
@@ -781,6 +811,11 @@ def c15_cases(tier, seed):
         for val in ("<a/><a/><a/><a/>", "<a>t</a>", "<!--c-->x<?p?>", "<a><b/></a>t"):
             base.append(Case(gens.ent_doc([("e", val)], "<r>" + "&e;" * k + "</r>"), "", True, meta={"gen": "ent-multiply", "k": k}))
     base.append(Case(gens.ent_doc([("e", "<a/><a/>"), ("f", "&e;&e;&e;"), ("g", "&f;&f;&f;")], "<r>&g;&g;</r>"), "", True, meta={"gen": "ent-multiply-nested"}))
+    # entity values whose markup characters outnumber the nodes they yield ('<' inside CDATA / comments / PIs, CDATA merging into
+    # preceding text): a limit equal to the real node count must still be accepted
+    for val in ("<![CDATA[y]]>", "<?pi <<<< ?>", "<!-- <<<< -->", "<![CDATA[<<<<]]>", "<a b='1'/><![CDATA[<<]]>", "t<![CDATA[<]]><!--<-->"):
+        for body in ("<r>x&e;</r>", "<r>&e;</r>", "<r><a/>x&e;&e;</r>", "<r><a>&e;</a>&e;</r>"):
+            base.append(Case(gens.ent_doc([("e", val)], body), "", True, meta={"gen": "ent-lt-overcount"}))
     for s in ("<a>x<![CDATA[y]]></a>", "<a><b/>x<![CDATA[y]]>z</a>", "<a>x<!--c-->y</a>"):
         base.append(Case(s, "", True, meta={"gen": "text-merge"}))
     base.append(Case(gens.ent_doc([("e", "y")], "<a>x&e;z</a>"), "", True, meta={"gen": "text-merge"}))
@@ -919,6 +954,7 @@ def c18_cases(tier, seed):
     cs += [Case(c.data, "ncb", True, meta=c.meta) for c in rnd.sample(more, min(len(more), 3000 if q else 20000))]
     more = gens.g_pieces_attr(3)
     cs += [Case(c.data, "ncb", True, meta=c.meta) for c in rnd.sample(more, min(len(more), 2000 if q else 8000))]
+    cs += gens.g_utf8_bytes(flags="ncb") + gens.g_cr_in_misc(flags="ncb")
     # fast-path families
     for body, borrowed in (("plain text", True), ("two\nlines\ttab", True), ("a&amp;b", False), ("a\rb", False), ("a\r\nb", False), ("é中", True), ("a&#65;", False)):
         cs.append(Case("<r>" + body + "</r>", "ncb", True, meta={"gen": "fast-text", "expect_borrowed_text": borrowed, "text_node": 2}))
